@@ -53,6 +53,10 @@ def gen_cases(rng, tier):
         else:
             c = {'kind': 'validate', 'names': names, 'rows': rows_enc(rows),
                  'schema': dict((f, rng.pick(TYPES)) for f in names), 'policy': pol}
+        if c['kind'] == 'set_type' and c['two'] and rng.chance(0.5) and not (c['regex'] and any(re.fullmatch(c['name'], o) for o in ('#o1', '#o2'))):
+            # the selector covers the other resource as well, but none of its fields has a matching name: set_type has
+            # nothing to do there, whatever that resource's values look like under its own schema (round 8)
+            c['other_nomatch'] = rng.pick(['all', 'list'])
         # how a custom handler is written: all parameters required, the last one(s) with defaults, a callable object
         c['shape'] = rng.pick(['required', 'default', 'extra', 'object'])
         # missing-value tokens declared on the resource's schema (Table Schema's cast reads them as null; without ''
@@ -69,7 +73,16 @@ def gen_cases(rng, tier):
         cases.append({'kind': 'validate', 'names': ['a', 'b'], 'rows': rows_enc(rows),
                       'schema': {'a': {'type': 'integer', 'constraints': {'required': True}}, 'b': {'type': 'string'}}, 'policy': pol,
                       'shape': 'required', 'mv': None})
+    for pol in ('raise', 'drop', 'ignore', 'clear', 'default'):
+        for how in ('all', 'list'):
+            rows = [{'a': '1', 'b': 'x'}, {'a': 'zz', 'b': 'y'}, {'a': '3', 'b': None}]
+            cases.append({'kind': 'set_type', 'names': ['a', 'b'], 'rows': rows_enc(rows), 'name': 'a', 'regex': False,
+                          'options': {'type': 'integer'}, 'policy': pol, 'transform': False, 'two': True, 'other_nomatch': how,
+                          'shape': 'required', 'mv': None})
     return cases
+
+
+OTHER_NOMATCH_ROWS = [{'#o1': 'X1', '#o2': 1}, {'#o1': 5, '#o2': 'not a number'}, {'#o1': None, '#o2': 3}]
 
 
 def mk_policy(pol, log, shape='required'):
@@ -129,12 +142,16 @@ def run_impl(case):
     pol = mk_policy(case['policy'], log, case.get('shape', 'required'))
     if case['kind'] == 'set_type':
         res = [mk_resource('t', case['names'], rows, types=dict((f, 'any') for f in case['names']))]
-        if case['two']:
+        if case['two'] and case.get('other_nomatch'):
+            # fields no generated name or pattern matches; the values are not all of the declared type (as a resource looks
+            # after an earlier set_type(..., on_error=ignore))
+            res.append(mk_resource('other', ['#o1', '#o2'], copy.deepcopy(OTHER_NOMATCH_ROWS), types={'#o1': 'integer', '#o2': 'integer'}))
+        elif case['two']:
             res.append(mk_resource('other', case['names'], rows, types=dict((f, 'any') for f in case['names'])))
         for r_ in res:
             r_['missingValues'] = case.get('mv')
         kw = dict(case['options'])
-        step = DF.set_type(case['name'], resources='t', regex=case['regex'], on_error=pol,
+        step = DF.set_type(case['name'], resources={None: 't', 'all': None, 'list': ['t', 'other']}[case.get('other_nomatch')], regex=case['regex'], on_error=pol,
                            transform=_tr if case['transform'] else None, **kw)
     else:
         r = mk_resource('t', case['names'], rows)
@@ -245,7 +262,11 @@ def oracle(case, out):
         return '%s/%s: emitted rows differ from the specified result (%d vs %d rows)' % (case['kind'], case['policy'], len(got), len(exp[1]))
     if case['policy'] in ('custom4', 'custom5') and out['calls'] != exp[2]:
         return 'custom handler calls %r, expected one per offending field: %r' % (out['calls'], exp[2])
-    if case.get('two') and not same_rows(rows_dec(out.get('other', [])), rows_dec(case['rows'])):
+    if case.get('two') and case.get('other_nomatch'):
+        if not same_rows(rows_dec(out.get('other', [])), OTHER_NOMATCH_ROWS):
+            return 'set_type(resources=%s) changed rows of a selected resource none of whose fields it names: %r' % (
+                case['other_nomatch'], rows_dec(out.get('other', [])))
+    elif case.get('two') and not same_rows(rows_dec(out.get('other', [])), rows_dec(case['rows'])):
         return 'set_type changed rows of a resource it was not applied to'
     return None
 
